@@ -175,4 +175,176 @@ theorem wordStart_of_sane {cfg : LexCfg} (h : SaneAlnum cfg) (c : Char) :
   · simp
   · simp [h c hs]
 
+/-!
+# Layouts of a token stream  (property C06)
+
+A token stream is a list of abstract tokens `ATok` (kind + canonical text).  A *layout* puts a separator (any
+sequence of blanks, newlines, `//` comments and `\`-newline continuations) before every token and after the
+last one, chooses for every statement terminator whether it is written `;` or as a newline, and (because the
+abstract `word` token carries its spelling) the case of every keyword.  `render` prints a layout,
+`Admissible` says when the layout is allowed:
+
+* no separator is omitted where the following text would extend the token (`NoExtend`): an identifier or
+  keyword directly followed by an alphanumeric or `_`; a number by a digit (or, for a number without fraction,
+  by `.` and a digit); `<` by `=` or `-`; `>` by `=`; `/` by `/` (that is also: `/` directly followed by a
+  comment);
+* a separator containing a newline (or a comment, which ends in one) only where the previous token is not a
+  statement ender (or there is no previous token);
+* a terminator is written as a newline only directly after a statement ender (blanks and continuations may
+  stand in between).
+-/
+
+/-- abstract tokens -/
+inductive ATok
+  | punct (c : Char) (tt : TT)        -- one of the single-character tokens
+  | op (a b : Char) (tt : TT)         -- one of the two-character operators
+  | less | greater | slash
+  | word (c : Char) (cs : Str)        -- identifier or keyword, with its spelling
+  | number (ds fs : Str)              -- `ds` or `ds.fs` (`fs = []`: no fraction)
+  | string (body : Str)               -- the raw text between the quotes
+  | term (asNewline : Bool)           -- the statement terminator, written `;` or as a newline
+
+def ATok.text : ATok → Str
+  | .punct c _ => [c]
+  | .op a b _ => [a, b]
+  | .less => ['<'] | .greater => ['>'] | .slash => ['/']
+  | .word c cs => c :: cs
+  | .number ds [] => ds
+  | .number ds (f :: fs) => ds ++ '.' :: f :: fs
+  | .string body => '"' :: body ++ ['"']
+  | .term false => [';']
+  | .term true => ['\n']
+
+def ATok.kind (cfg : LexCfg) : ATok → TT
+  | .punct _ tt => tt
+  | .op _ _ tt => tt
+  | .less => .less | .greater => .greater | .slash => .slash
+  | .word c cs => (cfg.kw (c :: cs)).getD .identifier
+  | .number .. => .number
+  | .string _ => .stringLiteral
+  | .term _ => .softSemi
+
+def ATok.lit : ATok → Lit
+  | .number ds fs => .num (numberValue ds fs)
+  | .string body => .str ((decode body).getD [])
+  | _ => .none
+
+/-- what `lex` must produce for the token: kind, lexeme, literal -/
+def ATok.out (cfg : LexCfg) (t : ATok) : TT × Str × Lit := (t.kind cfg, t.text, t.lit)
+
+def ATok.WF (cfg : LexCfg) : ATok → Prop
+  | .punct c tt => (c, tt) ∈ Lexical.punct
+  | .op a b tt => (a, b, tt) ∈ Lexical.op2
+  | .word c cs => wordStart cfg c = true ∧ ∀ d ∈ cs, wordChar cfg d = true
+  | .number ds fs => IsDigits ds ∧ (fs = [] ∨ IsDigits fs)
+  | .string body => decode body ≠ none
+  | _ => True
+
+/-- what may stand between two tokens -/
+inductive SepItem
+  | blank (c : Char)          -- space, tab or carriage return
+  | newline
+  | comment (body : Str)      -- `//body` and the newline that ends it
+  | continuation              -- backslash newline
+
+def SepItem.text : SepItem → Str
+  | .blank c => [c]
+  | .newline => ['\n']
+  | .comment body => '/' :: '/' :: body ++ ['\n']
+  | .continuation => ['\\', '\n']
+
+def SepItem.WF : SepItem → Prop
+  | .blank c => isBlank c = true
+  | .comment body => ∀ d ∈ body, d ≠ '\n'
+  | _ => True
+
+/-- does the item contain a newline unit? -/
+def SepItem.hasNewline : SepItem → Bool
+  | .newline | .comment _ => true
+  | _ => false
+
+abbrev Sep := List SepItem
+
+def sepText : Sep → Str
+  | [] => []
+  | i :: s => i.text ++ sepText s
+
+/-- a separator and the token after it -/
+structure Piece where
+  sep : Sep
+  tok : ATok
+
+/-- a `//` comment may end the input without a newline -/
+def endText : Option Str → Str
+  | none => []
+  | some body => '/' :: '/' :: body
+
+/-- print a layout: the pieces, the trailing separator, an optional final comment without newline -/
+def render : List Piece → Sep → Option Str → Str
+  | [], trail, ec => sepText trail ++ endText ec
+  | p :: ps, trail, ec => sepText p.sep ++ (p.tok.text ++ render ps trail ec)
+
+/-- the text `f` written directly after the token does not change the token -/
+def NoExtend (cfg : LexCfg) : ATok → Str → Prop
+  | .less, f => startsWith (fun d => d == '=' || d == '-') f = false
+  | .greater, f => startsWith (· == '=') f = false
+  | .slash, f => startsWith (· == '/') f = false
+  | .word .., f => startsWith (wordChar cfg) f = false
+  | .number _ [], f => startsWith isAsciiDigit f = false ∧ ∀ r, f = '.' :: r → startsWith isAsciiDigit r = false
+  | .number _ (_ :: _), f => startsWith isAsciiDigit f = false
+  | _, _ => True
+
+/-- a separator with a newline in it is allowed only where the previous token is not a statement ender -/
+def SepOk (cfg : LexCfg) (prev : Option TT) (s : Sep) : Prop :=
+  s.any SepItem.hasNewline = true → prev.any cfg.ender = false
+
+/-- a terminator may be written as a newline only after a statement ender -/
+def TermOk (cfg : LexCfg) (prev : Option TT) : ATok → Prop
+  | .term true => prev.any cfg.ender = true
+  | _ => True
+
+/-- `prev` = kind of the token before the pieces -/
+def Admissible (cfg : LexCfg) : Option TT → List Piece → Sep → Option Str → Prop
+  | prev, [], trail, _ => SepOk cfg prev trail
+  | prev, p :: ps, trail, ec =>
+    SepOk cfg prev p.sep ∧ TermOk cfg prev p.tok ∧ NoExtend cfg p.tok (render ps trail ec) ∧
+      Admissible cfg (some (p.tok.kind cfg)) ps trail ec
+
+def LayoutWF (cfg : LexCfg) (ps : List Piece) (trail : Sep) (ec : Option Str) : Prop :=
+  (∀ p ∈ ps, (∀ i ∈ p.sep, i.WF) ∧ p.tok.WF cfg) ∧ (∀ i ∈ trail, i.WF) ∧ (∀ b, ec = some b → ∀ d ∈ b, d ≠ '\n')
+
+/-! ### a sufficient, first-character form of `NoExtend` (the `merges` relation) -/
+
+/-- would the character `d`, written directly after the token, extend it (or, for a number without
+fraction followed by `.`, possibly extend it)? -/
+def ATok.extendedBy (cfg : LexCfg) : ATok → Char → Bool
+  | .less, d => d == '=' || d == '-'
+  | .greater, d => d == '='
+  | .slash, d => d == '/'
+  | .word .., d => wordChar cfg d
+  | .number _ [], d => isAsciiDigit d || d == '.'
+  | .number _ (_ :: _), d => isAsciiDigit d
+  | _, _ => false
+
+/-- `merges a b`: the text of `b` written directly after `a` would (or might) change `a` -/
+def merges (cfg : LexCfg) (a b : ATok) : Bool := startsWith (a.extendedBy cfg) b.text
+
+/-- the keyword table is closed under ASCII upper- and lower-casing of a spelling -/
+def CaseClosed (kw : Str → Option TT) : Prop :=
+  ∀ s k, kw s = some k → kw (s.map Char.toUpper) = some k ∧ kw (s.map Char.toLower) = some k
+
+/-- `b` is `a`, or the same keyword in upper or lower case, or the same terminator written the other way -/
+inductive Variant (cfg : LexCfg) : ATok → ATok → Prop
+  | same (a) : Variant cfg a a
+  | upper (c cs c' cs' k) : cfg.kw (c :: cs) = some k → c' :: cs' = (c :: cs).map Char.toUpper →
+      Variant cfg (.word c cs) (.word c' cs')
+  | lower (c cs c' cs' k) : cfg.kw (c :: cs) = some k → c' :: cs' = (c :: cs).map Char.toLower →
+      Variant cfg (.word c cs) (.word c' cs')
+  | term (a b) : Variant cfg (.term a) (.term b)
+
+/-- two layouts of the same stream: token by token variants of each other, separators unrelated -/
+inductive Variants (cfg : LexCfg) : List Piece → List Piece → Prop
+  | nil : Variants cfg [] []
+  | cons {p q ps qs} : Variant cfg p.tok q.tok → Variants cfg ps qs → Variants cfg (p :: ps) (q :: qs)
+
 end Aplang.Spec.Lexical
